@@ -88,7 +88,7 @@ def check(repo, tier):
             l2rules.relative_cut_obligations(run, 'C11', 'D1', repo, sc, scen, mods)
             if exc is not None:
                 run.oblige('D2', (entry, scen, 'raises', exc.exc_type, exc.where), False)
-                l2rules.raised_finding(run, 'C11', 'D2', repo, entry, scen, exc, instance=f'{which}:order={d}:steps={steps}:{"".join("T" if c else "F" for c in ch)}')
+                l2rules.raised_finding(run, 'C11', 'D2', repo, entry, scen, exc, instance=f'{which}:order={d}:steps={steps}')
                 continue
             run.oblige('D2', (entry, scen, tuple(ch)), True)
             l2rules.stale_obligation(run, 'C11', 'D2', repo, sc, entry, scen, mods)
@@ -121,7 +121,8 @@ def check(repo, tier):
             run.oblige('D4', (entry, scen, tuple(ch), 'net time'), good, sample={'rule': 'D4', 'scenario': pscen, 'net_time_per_site': sites, 'bond_time': bonds, 'step_size': H} if len([s for s in run.samples if s.get('rule') == 'D4']) < 3 else None)
             if not good and not bad:
                 detail = ', '.join(f'site {k}: {v:g}' for k, v in sorted(wrong.items())) + (f'; sites never evolved: {missing}' if missing else '')
-                inst = f'{which}:order={d}:steps={steps}:{"".join("T" if c else "F" for c in ch)}:' + ','.join(f'{k}={v:g}' for k, v in sorted(wrong.items())) + (':missing=' + ','.join(map(str, missing)) if missing else '')
+                # (keyed by the outcome, not by the sequence of branch outcomes that led to it: a refactoring may add or remove data-dependent tests)
+                inst = f'{which}:order={d}:steps={steps}:' + ','.join(f'{k}={v:g}' for k, v in sorted(wrong.items())) + (':missing=' + ','.join(map(str, missing)) if missing else '')
                 run.add(Finding('C11', 'D4', fn.where, 'net evolution time per site', f'{pscen}: with step_size={H} and {steps} step(s) every site must be evolved by a net time {want:g}, but {detail}',
                                 fn.file, fn.node.lineno, {'sites': sites, 'bonds': bonds, 'instances': [inst]}))
     krylov_rule(run, repo)
